@@ -295,6 +295,39 @@ def leadsheet_append_order(ctx, ci):
          'with different lengths' % ', then '.join(recv), construct='LeadSheet.append: melody first', definite=True)
 
 
+def _expand_props(ci, expr, depth=4):
+  """`expr` with every self.<property> replaced by what the property returns (single-return properties of the class, through the
+  MRO as indexed) and len(self) by what __len__ returns."""
+  import copy
+
+  class T(ast.NodeTransformer):
+    def visit_Attribute(self, node):
+      self.generic_visit(node)
+      if isinstance(node.value, ast.Name) and node.value.id == 'self' and isinstance(node.ctx, ast.Load):
+        m = ci.methods.get(node.attr)
+        if m is not None and (m.is_property() if callable(m.is_property) else m.is_property):
+          rets = [r for r in ast.walk(m.node) if isinstance(r, ast.Return)]
+          if len(rets) == 1 and rets[0].value is not None:
+            return copy.deepcopy(U.expand_locals(m.node, rets[0].value, at=rets[0]))
+      return node
+
+    def visit_Call(self, node):
+      self.generic_visit(node)
+      if dotted(node.func) == 'len' and len(node.args) == 1 and isinstance(node.args[0], ast.Name) and node.args[0].id == 'self':
+        m = ci.methods.get('__len__')
+        rets = [r for r in ast.walk(m.node) if isinstance(r, ast.Return)] if m is not None else []
+        if len(rets) == 1:
+          return copy.deepcopy(rets[0].value)
+      return node
+  cur = copy.deepcopy(expr)
+  for _ in range(depth):
+    nxt = T().visit(copy.deepcopy(cur))
+    if norm_text(nxt) == norm_text(cur):
+      break
+    cur = nxt
+  return cur
+
+
 def paired_on_every_exit(ctx, m, name, rule, mode='length'):
   """Location-independent must-pass-through over the normal exits of LeadSheet.<name>.
   mode 'length' (C17: append, set_length, increase_resolution change the length): an exit reached with one sequence edited
@@ -564,9 +597,25 @@ def steps_family(ctx):
   txt = [norm_text(s) for s in U.walk_stmts(sl.node)]
   ok = any(t == 'self._events += [()] * (steps - self.num_steps)' for t in txt) and any(t == 'del self._events[steps:]' for t in txt)
   ctx.ob('STEPS/pianoroll-set-length', sl, sl.node, ok, 'pads with (steps - num_steps) empty frames or truncates at steps' if ok else 'PianorollSequence.set_length does not pad/truncate to exactly `steps` frames')
-  ok = any(norm_text(r.value) == 'len(self)' for r in ast.walk(pr.methods['num_steps'].node) if isinstance(r, ast.Return)) and \
-      any(norm_text(r.value) == 'self.start_step + self.num_steps' for r in ast.walk(pr.methods['end_step'].node) if isinstance(r, ast.Return))
-  ctx.ob('STEPS/pianoroll-range', pr, pr.node, ok, 'one frame per step: num_steps = len, end_step = start_step + num_steps' if ok else 'PianorollSequence step range is not derived from its length')
+  # read through the property chain (num_steps -> len(self) -> len(self._events), start_step -> self._start_step): the spelling of
+  # one property in terms of another does not matter, only what they reduce to
+  def reduced(name):
+    m = pr.methods.get(name)
+    rets = [r for r in ast.walk(m.node) if isinstance(r, ast.Return)] if m is not None else []
+    return _expand_props(pr, U.expand_locals(m.node, rets[0].value, at=rets[0])) if len(rets) == 1 else None
+  ns_, es_ = reduced('num_steps'), reduced('end_step')
+  unk = None
+  if ns_ is not None and es_ is not None:
+    LEN = 'len(self._events)'
+    es_t = norm_text(es_).replace(LEN, 'LEN__')
+    try:
+      ok = norm_text(ns_) == LEN and nf.rat(E(es_t)).equals(nf.rat(E('self._start_step + LEN__')))
+    except (nf.NFError, SyntaxError):
+      ok, unk = False, 'cannot classify: end_step reduces to %s' % norm_text(es_)
+  else:
+    ok, unk = False, 'cannot classify: num_steps / end_step are not single-return properties'
+  ctx.ob('STEPS/pianoroll-range', pr, pr.node, bool(ok), 'one frame per step: num_steps = len(events), end_step = start_step + len(events)' if ok else
+         (unk or 'PianorollSequence step range is not derived from its length: num_steps = %s, end_step = %s' % (norm_text(ns_), norm_text(es_))), unknown=unk)
 
 
 # ------------------------------------------------------------------ Melody event range
